@@ -26,3 +26,117 @@ TWINS = [
     {"name": "pop-early-return-style", "edits": [(M, "        if modified and self.on_update is not None:\n            self.on_update(self)\n        return rv\n\n    @_always_update\n    def __setitem__", "        if not modified or self.on_update is None:\n            return rv\n        self.on_update(self)\n        return rv\n\n    @_always_update\n    def __setitem__")]},
     {"name": "headerset-new-method-through-update", "edits": [(S, "    def as_set(self, preserve_casing: bool = False) -> set[str]:", "    def add_all(self, *headers: str) -> None:\n        self.update(headers)\n\n    def as_set(self, preserve_casing: bool = False) -> set[str]:")]},
 ]
+
+# ---------------------------------------------------------------------------------------------------------------------
+# round 2: further behaviour-preserving shapes the rules accept (decided on the inlined call graph), and for each of
+# them a defect planted in that shape (``_derive``: the twin's edits with one fragment of the new text replaced)
+CC = "datastructures/cache_control.py"
+I = "_internal.py"
+
+ROUND2_TWINS = [
+    {"name": "headerset-module-level-notify-truthiness", "edits": [
+        (S, "class HeaderSet(cabc.MutableSet[str]):", "def _fire(hs: t.Any) -> None:\n    cb = hs.on_update\n    if cb:\n        cb(hs)\n\n\nclass HeaderSet(cabc.MutableSet[str]):"),
+        (S, "        self._set.clear()\n        self._headers.clear()\n\n        if self.on_update is not None:\n            self.on_update(self)", "        self._set.clear()\n        self._headers.clear()\n        _fire(self)"),
+        (S, "        rv = self._headers.pop(idx)\n        self._set.remove(rv.lower())\n        if self.on_update is not None:\n            self.on_update(self)", "        rv = self._headers.pop(idx)\n        self._set.remove(rv.lower())\n        _fire(self)"),
+    ]},
+    {"name": "headerset-update-accumulator-list", "edits": [
+        (S, "        inserted_any = False\n        for header in iterable:\n            key = header.lower()\n            if key not in self._set:\n                self._headers.append(header)\n                self._set.add(key)\n                inserted_any = True\n        if inserted_any and self.on_update is not None:\n            self.on_update(self)",
+            "        added = []\n        for header in iterable:\n            if header.lower() in self._set:\n                continue\n            self._set.add(header.lower())\n            self._headers.append(header)\n            added.append(header)\n        if not added:\n            return\n        if self.on_update is not None:\n            self.on_update(self)"),
+    ]},
+    {"name": "headerset-update-insert-helper-returns-flag", "edits": [
+        (S, "        inserted_any = False\n        for header in iterable:\n            key = header.lower()\n            if key not in self._set:\n                self._headers.append(header)\n                self._set.add(key)\n                inserted_any = True\n        if inserted_any and self.on_update is not None:\n            self.on_update(self)",
+            "        changed = False\n        for header in iterable:\n            changed = self._insert(header, header.lower()) or changed\n        if changed and self.on_update is not None:\n            self.on_update(self)\n\n    def _insert(self, item: str, folded: str) -> bool:\n        if folded in self._set:\n            return False\n        self._headers.append(item)\n        self._set.add(folded)\n        return True"),
+    ]},
+    {"name": "updatedict-pop-setdefault-early-return", "edits": [
+        (M, "        modified = key in self\n        if default is _missing:\n            rv = super().pop(key)\n        else:\n            rv = super().pop(key, default)  # type: ignore[arg-type]\n        if modified and self.on_update is not None:\n            self.on_update(self)\n        return rv",
+            "        if key not in self:\n            if default is _missing:\n                raise KeyError(key)\n            return default\n        rv = super().pop(key)\n        callback = self.on_update\n        if callback is not None:\n            callback(self)\n        return rv"),
+        (M, "        modified = key not in self\n        rv = super().setdefault(key, default)  # type: ignore[arg-type]\n        if modified and self.on_update is not None:\n            self.on_update(self)\n        return rv",
+            "        if key in self:\n            return super().__getitem__(key)\n        super().__setitem__(key, default)  # type: ignore[assignment]\n        if self.on_update is not None:\n            self.on_update(self)\n        return default  # type: ignore[return-value]"),
+    ]},
+    {"name": "always-update-wraps-decorator-early-return", "edits": [
+        (M, "        rv = f(self, *args, **kwargs)\n\n        if self.on_update is not None:\n            self.on_update(self)\n\n        return rv\n\n    return update_wrapper(wrapper, f)  # type: ignore[return-value]",
+            "        result = f(self, *args, **kwargs)\n        notify = self.on_update\n\n        if notify is None:\n            return result\n\n        notify(self)\n        return result\n\n    update_wrapper(wrapper, f)\n    return wrapper  # type: ignore[return-value]"),
+    ]},
+    {"name": "wwwauth-trigger-renamed-bound-method-callback", "edits": [
+        (A, "    def _trigger_on_update(self) -> None:\n        if self._on_update is not None:\n            self._on_update(self)", "    def _trigger_on_update(self) -> None:\n        hook = self._on_update\n        if hook is None:\n            return\n        hook(self)\n\n    def _child_changed(self, _child: t.Any) -> None:\n        self._trigger_on_update()"),
+        (A, "        self._parameters: dict[str, str | None] = CallbackDict(\n            values, lambda _: self._trigger_on_update()\n        )", "        self._parameters: dict[str, str | None] = CallbackDict(\n            values, on_update=self._child_changed\n        )"),
+    ]},
+    {"name": "content-range-set-tuple-assignment-alias", "edits": [
+        (RG, "        self._units: str | None = units\n        self._start: int | None = start\n        self._stop: int | None = stop\n        self._length: int | None = length\n        if self.on_update is not None:\n            self.on_update(self)",
+             "        self._units, self._start = units, start\n        self._stop, self._length = stop, length\n        callback = self.on_update\n        if callback is None:\n            return\n        callback(self)"),
+        (RG, "        instance.__dict__[self.attr] = value\n\n        if instance.on_update is not None:\n            instance.on_update(instance)", "        vars(instance)[self.attr] = value\n        notify = instance.on_update\n\n        if notify is not None:\n            notify(instance)"),
+    ]},
+    {"name": "response-callbacks-renamed-pop-set", "edits": [
+        (R, "        def on_update(header_set: HeaderSet) -> None:\n            if not header_set and name in self.headers:\n                del self.headers[name]\n            elif header_set:\n                self.headers[name] = header_set.to_header()\n\n        return parse_set_header(self.headers.get(name), on_update)",
+            "        headers = self.headers\n\n        def write_back(hs: HeaderSet) -> None:\n            if hs:\n                headers.set(name, hs.to_header())\n            else:\n                headers.pop(name, None)\n\n        return parse_set_header(headers.get(name), write_back)"),
+        (R, "        def on_update(rng: ContentRange) -> None:\n            if not rng:\n                del self.headers[\"content-range\"]\n            else:\n                self.headers[\"Content-Range\"] = rng.to_header()\n\n        rv = parse_content_range_header(self.headers.get(\"content-range\"), on_update)",
+            "        def sync(rng: ContentRange) -> None:\n            if rng:\n                self.headers[\"Content-Range\"] = rng.to_header()\n                return\n            del self.headers[\"content-range\"]\n\n        on_update = sync\n        rv = parse_content_range_header(self.headers.get(\"content-range\"), on_update)"),
+    ]},
+    {"name": "cache-value-flags-and-renamed-params", "edits": [
+        (CC, "        self, key: str, value: t.Any, type: type[t.Any] | None\n    ) -> None:\n        \"\"\"Used internally by the accessor properties.\"\"\"\n        if type is bool:\n            if value:\n                self[key] = None\n            else:\n                self.pop(key, None)\n        elif value is None or value is False:\n            self.pop(key, None)\n        elif value is True:\n            self[key] = None\n        else:\n            if type is not None:\n                value = type(value)\n\n            self[key] = str(value)",
+             "        self, key: str, val: t.Any, kind: t.Any\n    ) -> None:\n        \"\"\"Used internally by the accessor properties.\"\"\"\n        if kind is bool:\n            remove = not val\n            valueless = True\n        else:\n            remove = val is None or val is False\n            valueless = val is True\n        if remove:\n            self.pop(key, None)\n            return\n        if valueless:\n            self[key] = None\n            return\n        converted = val if kind is None else kind(val)\n        self[key] = str(converted)"),
+    ]},
+    {"name": "setattr-guard-clause-object-setattr-type-setter-local", "edits": [
+        (A, "        if name in {\n            \"type\",\n            \"parameters\",\n            \"token\",\n            \"_type\",\n            \"_parameters\",\n            \"_token\",\n            \"_on_update\",\n        }:\n            super().__setattr__(name, value)\n        else:\n            self[name] = value",
+            "        if name not in (\n            \"type\",\n            \"parameters\",\n            \"token\",\n            \"_type\",\n            \"_parameters\",\n            \"_token\",\n            \"_on_update\",\n        ):\n            self[name] = value\n            return\n        object.__setattr__(self, name, value)"),
+        (A, "        self._type = value.lower()\n        self._trigger_on_update()", "        scheme = value.lower()\n        self._type = scheme\n        self._trigger_on_update()"),
+    ]},
+    {"name": "accessor-set-get-through-locals-lambda-params-renamed", "edits": [
+        (I, "        if self.dump_func is not None:\n            self.lookup(instance)[self.name] = self.dump_func(value)\n        else:\n            self.lookup(instance)[self.name] = value", "        storage = self.lookup(instance)\n        dump = self.dump_func\n        storage[self.name] = value if dump is None else dump(value)"),
+        (R, "        load_func=lambda value: COEP(value),\n        dump_func=lambda value: value.value,", "        load_func=COEP,\n        dump_func=lambda policy: policy.value,"),
+    ]},
+]
+
+
+def _derive(twin_name, repl):
+    tw = next(t for t in ROUND2_TWINS if t["name"] == twin_name)
+    out = []
+    hit = 0
+    for rel, old, new in tw["edits"]:
+        for a, b in repl:
+            if a in new:
+                assert new.count(a) == 1, (twin_name, a)
+                new = new.replace(a, b)
+                hit += 1
+        out.append((rel, old, new))
+    assert hit == len(repl), (twin_name, hit)
+    return out
+
+
+ROUND2_MUTANTS = [
+    {"name": "shape:module-level-notify-does-nothing", "expect": "R16.2", "edits": _derive("headerset-module-level-notify-truthiness", [("    if cb:\n        cb(hs)", "    if cb:\n        pass")])},
+    {"name": "shape:accumulator-never-filled", "expect": "R16.2", "edits": _derive("headerset-update-accumulator-list", [("            added.append(header)\n", "")])},
+    {"name": "shape:insert-helper-flag-lost", "expect": "R16.2", "edits": _derive("headerset-update-insert-helper-returns-flag", [("self._insert(header, header.lower()) or changed", "self._insert(header, header.lower()) and changed")])},
+    {"name": "shape:insert-helper-guard-dropped", "expect": "R16.2", "edits": _derive("headerset-update-insert-helper-returns-flag", [("        if folded in self._set:\n            return False\n", "")])},
+    {"name": "shape:pop-early-return-forgets-callback", "expect": "R16.1", "edits": _derive("updatedict-pop-setdefault-early-return", [("        if callback is not None:\n            callback(self)\n        return rv", "        return rv")])},
+    {"name": "shape:setdefault-notifies-before-store", "expect": "R16.1", "edits": _derive("updatedict-pop-setdefault-early-return", [("        super().__setitem__(key, default)  # type: ignore[assignment]\n        if self.on_update is not None:\n            self.on_update(self)\n", "        if self.on_update is not None:\n            self.on_update(self)\n        super().__setitem__(key, default)  # type: ignore[assignment]\n")])},
+    {"name": "shape:wrapper-early-return-inverted", "expect": "R16.1", "edits": _derive("always-update-wraps-decorator-early-return", [("        if notify is None:\n            return result", "        if notify is not None:\n            return result")])},
+    {"name": "shape:child-callback-does-not-trigger", "expect": "R16.3", "edits": _derive("wwwauth-trigger-renamed-bound-method-callback", [("    def _child_changed(self, _child: t.Any) -> None:\n        self._trigger_on_update()", "    def _child_changed(self, _child: t.Any) -> None:\n        pass")])},
+    {"name": "shape:trigger-hook-guard-inverted", "expect": "R16.3", "edits": _derive("wwwauth-trigger-renamed-bound-method-callback", [("        if hook is None:\n            return\n        hook(self)", "        if hook is not None:\n            return\n        hook(self)")])},
+    {"name": "shape:content-range-set-returns-before-callback", "expect": "R16.3", "edits": _derive("content-range-set-tuple-assignment-alias", [("        if callback is None:\n            return\n        callback(self)", "        if callback is not None:\n            return\n        callback(self)")])},
+    {"name": "shape:descriptor-notifies-before-store", "expect": "R16.3", "edits": _derive("content-range-set-tuple-assignment-alias", [("        vars(instance)[self.attr] = value\n        notify = instance.on_update\n\n        if notify is not None:\n            notify(instance)", "        notify = instance.on_update\n\n        if notify is not None:\n            notify(instance)\n        vars(instance)[self.attr] = value")])},
+    {"name": "shape:renamed-callback-leaves-empty-header", "expect": "R16.5", "edits": _derive("response-callbacks-renamed-pop-set", [("            else:\n                headers.pop(name, None)", "            else:\n                pass")])},
+    {"name": "shape:renamed-callback-writes-other-header", "expect": "R16.5", "edits": _derive("response-callbacks-renamed-pop-set", [("                self.headers[\"Content-Range\"] = rng.to_header()\n                return", "                self.headers[\"Content-Length\"] = rng.to_header()\n                return")])},
+    {"name": "shape:aliased-callback-not-passed", "expect": "R16.5", "edits": _derive("response-callbacks-renamed-pop-set", [("        return parse_set_header(headers.get(name), write_back)", "        return parse_set_header(headers.get(name))")])},
+    {"name": "shape:cache-flags-false-no-longer-removes", "expect": "R16.6", "edits": _derive("cache-value-flags-and-renamed-params", [("            remove = val is None or val is False", "            remove = val is None")])},
+    {"name": "shape:guard-clause-forgets-token", "expect": "R16.4", "edits": _derive("setattr-guard-clause-object-setattr-type-setter-local", [("            \"token\",\n            \"_type\",", "            \"_type\",")])},
+    {"name": "shape:type-setter-local-raw", "expect": "R16.7", "edits": _derive("setattr-guard-clause-object-setattr-type-setter-local", [("        scheme = value.lower()", "        scheme = value")])},
+    {"name": "shape:accessor-dump-condition-flipped", "expect": "R16.6", "edits": _derive("accessor-set-get-through-locals-lambda-params-renamed", [("value if dump is None else dump(value)", "dump(value) if dump is None else value")])},
+    {"name": "shape:dump-lambda-returns-object", "expect": "R16.6", "edits": _derive("accessor-set-get-through-locals-lambda-params-renamed", [("lambda policy: policy.value", "lambda policy: policy")])},
+]
+ROUND2_TWINS.append({"name": "cache-control-callback-is-a-method", "edits": [
+    (R, "        def on_update(cache_control: _CacheControl) -> None:\n            if not cache_control and \"cache-control\" in self.headers:\n                del self.headers[\"cache-control\"]\n            elif cache_control:\n                self.headers[\"Cache-Control\"] = cache_control.to_header()\n\n        return parse_cache_control_header(\n            self.headers.get(\"cache-control\"), on_update, ResponseCacheControl\n        )",
+        "        return parse_cache_control_header(\n            self.headers.get(\"cache-control\"),\n            self._store_cache_control,\n            ResponseCacheControl,\n        )\n\n    def _store_cache_control(self, cache_control: _CacheControl) -> None:\n        if cache_control:\n            self.headers[\"Cache-Control\"] = cache_control.to_header()\n        elif \"cache-control\" in self.headers:\n            del self.headers[\"cache-control\"]"),
+]})
+ROUND2_MUTANTS.append({"name": "shape:method-callback-never-deletes", "expect": "R16.5", "edits": _derive("cache-control-callback-is-a-method", [("        elif \"cache-control\" in self.headers:\n            del self.headers[\"cache-control\"]", "        elif \"cache-control\" in self.headers:\n            pass")])})
+ROUND2_TWINS.append({"name": "content-range-to-header-length-through-local", "edits": [
+    (RG, "        if self._length is None:\n            length: str | int = \"*\"\n        else:\n            length = self._length\n", "        total = self._length\n        length: str | int = \"*\" if total is None else total\n"),
+]})
+ROUND2_MUTANTS.append({"name": "shape:length-local-or-star", "expect": "R16.3", "edits": _derive("content-range-to-header-length-through-local", [("\"*\" if total is None else total", "total or \"*\"")])})
+ROUND2_TWINS.append({"name": 'update-star-ifexp', "edits": [(M, '        if arg is None:\n            super().update(**kwargs)\n        else:\n            super().update(arg, **kwargs)', '        super().update(*(() if arg is None else (arg,)), **kwargs)')]})
+ROUND2_TWINS.append({"name": 'remove-via-find', "edits": [(S, '        key = header.lower()\n        if key not in self._set:\n            raise KeyError(header)\n        self._set.remove(key)\n        for idx, item in enumerate(self._headers):\n            if item.lower() == key:\n                del self._headers[idx]\n                break\n        if self.on_update is not None:', '        idx = self.find(header)\n        if idx < 0:\n            raise KeyError(header)\n        del self._headers[idx]\n        self._set.remove(header.lower())\n        if self.on_update is not None:')]})
+ROUND2_TWINS.append({"name": 'wwwauth-setitem-params-local', "edits": [(A, '        if value is None:\n            if key in self.parameters:\n                del self.parameters[key]\n        else:\n            self.parameters[key] = value\n\n        self._trigger_on_update()', '        params = self.parameters\n        if value is None:\n            params.pop(key, None)\n        else:\n            params[key] = value\n\n        self._trigger_on_update()')]})
+ROUND2_TWINS.append({"name": 'www-authenticate-getter-or', "edits": [(R, '        value = WWWAuthenticate.from_header(self.headers.get("WWW-Authenticate"))\n\n        if value is None:\n            value = WWWAuthenticate("basic")\n\n        def on_update', '        value = WWWAuthenticate.from_header(\n            self.headers.get("WWW-Authenticate")\n        ) or WWWAuthenticate("basic")\n\n        def on_update')]})
+ROUND2_TWINS.append({"name": 'headerset-update-walrus-key', "edits": [(S, '            key = header.lower()\n            if key not in self._set:\n                self._headers.append(header)\n                self._set.add(key)\n                inserted_any = True', '            if (key := header.lower()) not in self._set:\n                self._set.add(key)\n                self._headers.append(header)\n                inserted_any = True')]})
+TWINS = TWINS + ROUND2_TWINS
+MUTANTS = MUTANTS + ROUND2_MUTANTS
